@@ -18,6 +18,12 @@
 //!   between steps.  Every corruption a read experienced must be reported
 //!   once, in order, to the earliest-created live matching barrier; reads
 //!   without a live matching barrier proceed unaffected.
+//!   The barriers carry all three reactions: every read call runs under
+//!   `catch_unwind` inside the host software, a read whose corruption event
+//!   meets a Panic barrier first (or a Suspend barrier: `trigger_noop` is
+//!   documented to panic on those) must panic with the pinned message, a
+//!   read that comes back corrupted must not have had one, and nothing is
+//!   reported for a panicked read.
 //!
 //! Barriers live in a thread-local registry: every case owns its barriers in
 //! RAII containers (`World` / local `Vec`) which are dropped on every exit
@@ -62,6 +68,12 @@ pub enum React {
     Noop,
     Suspend,
     Panic,
+}
+
+impl Default for React {
+    fn default() -> Self {
+        React::Noop
+    }
 }
 
 impl React {
@@ -1379,8 +1391,17 @@ pub struct FsHost {
 
 #[derive(Clone, Debug, Serialize, Deserialize)]
 pub enum FsAct {
-    /// `Barrier::new(|c: &FsCorruption| c.path is /f<i> for i in files)`
-    Build { files: Vec<u8> },
+    /// `Barrier::new(|c: &FsCorruption| c.path is /f<i> for i in files)` for `Noop`,
+    /// `Barrier::build(Reaction::Panic / Suspend, ..)` otherwise: the hook's trigger is the
+    /// synchronous `trigger_noop`, so a corrupted read whose earliest live matching barrier is
+    /// a Panic barrier must panic ("Injected panic from barrier"), and one that meets a
+    /// Suspend barrier panics too (rustdoc of `trigger_noop`: "will panic if used with a
+    /// barrier configured with Reaction::Suspend")
+    Build {
+        files: Vec<u8>,
+        #[serde(default)]
+        react: React,
+    },
     /// drain (poll wait() until Pending), compare, then drop a live barrier
     Drop(u16),
     /// drain a live barrier and compare with the model queue
@@ -1410,6 +1431,28 @@ struct ReadRec {
     res: Result<usize, String>,
     /// indices (within the read) of bytes that differ from the file contents
     diffs: Vec<usize>,
+    /// the read call panicked (message); `res` is then `Ok(0)` and means nothing
+    panicked: Option<String>,
+}
+
+/// Polls the inner future under `catch_unwind`: a panic raised by a poll of the read future
+/// (the fs shims do the read, and with it the corruption hook's trigger, inside the first
+/// poll) becomes `Err(message)` in the host software instead of taking the whole task down.
+struct CatchPoll<F: Future>(Pin<Box<F>>);
+
+impl<F: Future> Future for CatchPoll<F> {
+    type Output = Result<F::Output, String>;
+    fn poll(mut self: Pin<&mut Self>, cx: &mut Context<'_>) -> Poll<Self::Output> {
+        let inner = self.0.as_mut();
+        match catch_unwind(AssertUnwindSafe(|| inner.poll(cx))) {
+            Ok(Poll::Ready(v)) => Poll::Ready(Ok(v)),
+            Ok(Poll::Pending) => Poll::Pending,
+            Err(p) => {
+                let _ = crate::engine::take_last_panic();
+                Poll::Ready(Err(panic_text(p)))
+            }
+        }
+    }
 }
 
 fn fpath(f: usize) -> String {
@@ -1420,9 +1463,12 @@ async fn fs_host(
     host: usize,
     h: FsHost,
     short: bool,
+    // some barrier of the scenario has a Panic / Suspend reaction
+    reactive: bool,
     step: Rc<Cell<u32>>,
     log: Rc<RefCell<Vec<ReadRec>>>,
 ) -> turmoil::Result {
+    use std::mem::ManuallyDrop;
     use std::io::{Read, Seek, SeekFrom};
     use std::os::unix::fs::FileExt;
     use tokio::io::{AsyncReadExt, AsyncSeekExt};
@@ -1453,6 +1499,19 @@ async fn fs_host(
                 if short && kind == 4 {
                     kind = 3;
                 }
+                // A panic injected through the hook unwinds out of the shim while it holds the
+                // host's Fs lock and poisons it; a shim `File` dropped during that unwind
+                // panics again in `File::drop` ("Fs mutex poisoned") and the double panic
+                // aborts the process.  The whole-file helpers own such a handle internally, so
+                // with a Panic / Suspend barrier in the scenario only the handle-based read
+                // paths are used, through handles that are never dropped by an unwind
+                // (`ManuallyDrop`; dropped by hand after a read that returned).
+                if reactive && kind == 2 {
+                    kind = 0;
+                }
+                if reactive && kind == 4 {
+                    kind = 3;
+                }
                 let (off, want) = if kind == 2 || kind == 4 {
                     (0u64, content.len())
                 } else {
@@ -1460,29 +1519,94 @@ async fn fs_host(
                 };
                 let at = step.get();
                 let mut buf = vec![0u8; want];
+                let mut panicked: Option<String> = None;
+                let mut sync_read = |f: &mut dyn FnMut() -> std::io::Result<usize>| -> std::io::Result<usize> {
+                    match catch_unwind(AssertUnwindSafe(|| f())) {
+                        Ok(r) => r,
+                        Err(p) => {
+                            let _ = crate::engine::take_last_panic();
+                            panicked = Some(panic_text(p));
+                            Ok(0)
+                        }
+                    }
+                };
                 let res: std::io::Result<usize> = match kind {
-                    0 => sfs::File::open(&path).and_then(|file| file.read_at(&mut buf, off)),
-                    1 => sfs::File::open(&path).and_then(|mut file| {
-                        file.seek(SeekFrom::Start(off))?;
-                        file.read(&mut buf)
-                    }),
-                    2 => sfs::read(&path).map(|v| {
-                        buf = v;
-                        buf.len()
-                    }),
-                    3 => match tfs::File::open(&path).await {
-                        Ok(file) => file.read_at(&mut buf, off).await,
+                    0 => match sfs::File::open(&path) {
+                        Ok(file) => {
+                            let file = ManuallyDrop::new(file);
+                            let r = sync_read(&mut || file.read_at(&mut buf, off));
+                            if panicked.is_none() {
+                                drop(ManuallyDrop::into_inner(file));
+                            }
+                            r
+                        }
                         Err(e) => Err(e),
                     },
-                    4 => tfs::read(&path).await.map(|v| {
-                        buf = v;
-                        buf.len()
+                    1 => match sfs::File::open(&path) {
+                        Ok(file) => {
+                            let mut file = ManuallyDrop::new(file);
+                            let r = match file.seek(SeekFrom::Start(off)) {
+                                Ok(_) => sync_read(&mut || file.read(&mut buf)),
+                                Err(e) => Err(e),
+                            };
+                            if panicked.is_none() {
+                                drop(ManuallyDrop::into_inner(file));
+                            }
+                            r
+                        }
+                        Err(e) => Err(e),
+                    },
+                    2 => sync_read(&mut || {
+                        sfs::read(&path).map(|v| {
+                            buf = v;
+                            buf.len()
+                        })
                     }),
+                    3 => match tfs::File::open(&path).await {
+                        Ok(file) => {
+                            let file = ManuallyDrop::new(file);
+                            let r = match CatchPoll(Box::pin(file.read_at(&mut buf, off))).await {
+                                Ok(r) => r,
+                                Err(m) => {
+                                    panicked = Some(m);
+                                    Ok(0)
+                                }
+                            };
+                            if panicked.is_none() {
+                                drop(ManuallyDrop::into_inner(file));
+                            }
+                            r
+                        }
+                        Err(e) => Err(e),
+                    },
+                    4 => match CatchPoll(Box::pin(tfs::read(&path))).await {
+                        Ok(r) => r.map(|v| {
+                            buf = v;
+                            buf.len()
+                        }),
+                        Err(m) => {
+                            panicked = Some(m);
+                            Ok(0)
+                        }
+                    },
                     _ => match tfs::File::open(&path).await {
-                        Ok(mut file) => match file.seek(SeekFrom::Start(off)).await {
-                            Ok(_) => file.read(&mut buf).await,
-                            Err(e) => Err(e),
-                        },
+                        Ok(file) => {
+                            let mut file = ManuallyDrop::new(file);
+                            let r = match file.seek(SeekFrom::Start(off)).await {
+                                Ok(_) => match CatchPoll(Box::pin(file.read(&mut buf))).await {
+                                    Ok(r) => r,
+                                    Err(m) => {
+                                        panicked = Some(m);
+                                        Ok(0)
+                                    }
+                                },
+                                Err(e) => Err(e),
+                            };
+                            if panicked.is_none() {
+                                drop(ManuallyDrop::into_inner(file));
+                            }
+                            r
+                        }
                         Err(e) => Err(e),
                     },
                 };
@@ -1504,7 +1628,13 @@ async fn fs_host(
                     want,
                     res: res.map_err(|e| e.to_string()),
                     diffs,
+                    panicked: panicked.clone(),
                 });
+                if panicked.is_some() {
+                    // The unwind went through the shim holding this host's Fs lock (poisoned
+                    // on return): this host makes no further fs call and drops no handle.
+                    return Ok(());
+                }
             }
         }
     }
@@ -1522,6 +1652,7 @@ struct FsBarrier {
     slot: Option<Slot<FsCorruption>>,
     waker: Arc<CountWaker>,
     files: Vec<u8>,
+    react: React,
     created: u32,
     /// step before which it was dropped
     dropped: Option<u32>,
@@ -1545,10 +1676,11 @@ pub fn run_fs(sc: &FsScenario) -> Outcome {
     let mut sim = b.build();
     let step = Rc::new(Cell::new(0u32));
     let log: Rc<RefCell<Vec<ReadRec>>> = Rc::new(RefCell::new(Vec::new()));
+    let reactive = sc.acts.iter().any(|(_, a)| matches!(a, FsAct::Build { react, .. } if *react != React::Noop));
     for (i, h) in sc.hosts.iter().enumerate() {
         sim.client(
             format!("h{i}"),
-            fs_host(i, h.clone(), sp > 0.0, step.clone(), log.clone()),
+            fs_host(i, h.clone(), sp > 0.0, reactive, step.clone(), log.clone()),
         );
     }
 
@@ -1586,15 +1718,18 @@ pub fn run_fs(sc: &FsScenario) -> Outcome {
         while next_act < acts.len() && (acts[next_act].0 as u32 <= s || finished) {
             let live: Vec<usize> = (0..bars.len()).filter(|&i| bars[i].live).collect();
             match &acts[next_act].1 {
-                FsAct::Build { files } => {
+                FsAct::Build { files, react } => {
                     let set: Vec<String> = files.iter().map(|f| fpath(*f as usize)).collect();
-                    let bar = Barrier::new(move |c: &FsCorruption| {
-                        set.iter().any(|p| c.path == std::path::Path::new(p))
-                    });
+                    let cond = move |c: &FsCorruption| set.iter().any(|p| c.path == std::path::Path::new(p));
+                    let bar = match react {
+                        React::Noop => Barrier::new(cond),
+                        r => Barrier::build(r.real(), cond),
+                    };
                     bars.push(FsBarrier {
                         slot: Some(Slot::new(bar)),
                         waker: new_waker(),
                         files: files.clone(),
+                        react: *react,
                         created: s,
                         dropped: None,
                         seen: Vec::new(),
@@ -1663,9 +1798,52 @@ pub fn run_fs(sc: &FsScenario) -> Outcome {
     // step of every model event (parallel to `model`)
     let mut model_step: Vec<Vec<u32>> = vec![Vec::new(); bars.len()];
     let (mut events, mut unobserved, mut overlap, mut reads_n0, mut delivered) = (0u64, 0u64, 0u64, 0u64, 0u64);
+    let (mut panicked_by_panic, mut panicked_by_suspend, mut shadowed) = (0u64, 0u64, 0u64);
+    // a clause about Panic / Suspend barriers that rests on the reads' own corruption
+    // detection: only raised when the per-read oracle is usable
+    let mut react_fail: Option<Fail> = None;
+    // barriers live during step `st` whose condition matches file `f`, in creation order
+    let matching_at = |st: u32, f: usize| -> Vec<usize> {
+        (0..bars.len())
+            .filter(|&k| bars[k].created <= st && bars[k].dropped.map(|d| st < d).unwrap_or(true) && bars[k].files.contains(&(f as u8)))
+            .collect()
+    };
     if fail.is_none() {
         for r in log.iter() {
             let flen = sc.hosts[r.host].files[r.file].len();
+            if let Some(msg) = &r.panicked {
+                // "a Panic barrier panics the triggering code": the only admissible cause of a
+                // panicking read is a corruption event whose earliest live matching barrier has
+                // the Panic reaction (or Suspend: documented panic of trigger_noop)
+                let m = matching_at(r.step, r.file);
+                let first = m.first().map(|&k| bars[k].react);
+                let (want, sig): (&str, &str) = match first {
+                    Some(React::Panic) => {
+                        panicked_by_panic += 1;
+                        (MSG_PANIC, "fs-hook: read hit a Panic barrier but panicked with another message")
+                    }
+                    Some(React::Suspend) => {
+                        panicked_by_suspend += 1;
+                        (MSG_NOOP_ON_SUSPEND, "fs-hook: read hit a Suspend barrier but panicked with another message")
+                    }
+                    _ => {
+                        fail = Some((
+                            "fs-hook: read panicked although its earliest live matching barrier is not a Panic/Suspend barrier".into(),
+                            format!("{r:?}: earliest live matching barrier {:?} (matching {m:?})", first),
+                        ));
+                        break;
+                    }
+                };
+                if !msg.contains(want) {
+                    fail = Some((sig.into(), format!("{r:?}: expected a message containing {want:?}")));
+                    break;
+                }
+                if m.len() >= 2 {
+                    overlap += 1;
+                }
+                // nothing is reported for it: the panic is raised before the value is sent
+                continue;
+            }
             match &r.res {
                 Err(e) => {
                     fail = Some((
@@ -1696,17 +1874,28 @@ pub fn run_fs(sc: &FsScenario) -> Outcome {
                             len: 1,
                         };
                         // earliest-created barrier live during step r.step
-                        let matching: Vec<usize> = (0..bars.len())
-                            .filter(|&k| {
-                                bars[k].created <= r.step
-                                    && bars[k].dropped.map(|d| r.step < d).unwrap_or(true)
-                                    && bars[k].files.contains(&(r.file as u8))
-                            })
-                            .collect();
+                        let matching: Vec<usize> = matching_at(r.step, r.file);
                         if matching.len() >= 2 {
                             overlap += 1;
                         }
+                        if matching.iter().skip(1).any(|&k| bars[k].react != React::Noop) && bars[matching[0]].react == React::Noop {
+                            shadowed += 1;
+                        }
                         match matching.first() {
+                            Some(&k) if bars[k].react != React::Noop => {
+                                // the read experienced the corruption (so the hook fired its
+                                // trigger) and came back
+                                if react_fail.is_none() {
+                                    react_fail = Some((
+                                        match bars[k].react {
+                                            React::Panic => "fs-hook: corrupted read returned normally although its earliest live matching barrier has the Panic reaction",
+                                            _ => "fs-hook: corrupted read returned normally although its earliest live matching barrier has the Suspend reaction (trigger_noop is documented to panic)",
+                                        }
+                                        .into(),
+                                        format!("{r:?}: barrier #{k} (files {:?}, created before step {}, dropped before step {:?}); event {ev:?}", bars[k].files, bars[k].created, bars[k].dropped),
+                                    ));
+                                }
+                            }
                             Some(&k) => {
                                 delivered += 1;
                                 model[k].push(ev);
@@ -1718,6 +1907,9 @@ pub fn run_fs(sc: &FsScenario) -> Outcome {
                 }
             }
         }
+    }
+    if fail.is_none() && usable {
+        fail = react_fail;
     }
     if fail.is_none() && usable {
         for (k, fb) in bars.iter().enumerate() {
@@ -1801,6 +1993,25 @@ pub fn run_fs(sc: &FsScenario) -> Outcome {
     if overlap > 0 {
         out.label("fs: overlap-hit");
     }
+    out.count("fs: reads panicked by a Panic barrier", panicked_by_panic);
+    out.count("fs: reads panicked by a Suspend barrier (trigger_noop)", panicked_by_suspend);
+    if panicked_by_panic > 0 {
+        out.label("fs: read panicked by Panic barrier");
+    }
+    if panicked_by_suspend > 0 {
+        out.label("fs: read panicked by Suspend barrier");
+    }
+    if shadowed > 0 {
+        out.label("fs: Panic/Suspend barrier shadowed by an earlier Noop barrier (event delivered)");
+    }
+    if (panicked_by_panic > 0 || panicked_by_suspend > 0) && delivered > 0 {
+        out.label("fs: delivered and panicked in one run");
+    }
+    for k in 0..6u8 {
+        if log.iter().any(|r| r.kind == k && r.panicked.is_some()) {
+            out.label(format!("fs: panicked read kind {k}"));
+        }
+    }
     if reads_n0 > 0 {
         out.label("fs: zero-length read (no event)");
     }
@@ -1851,7 +2062,8 @@ fn arb_fshost() -> impl Strategy<Value = FsHost> {
 
 fn arb_fsact() -> impl Strategy<Value = FsAct> {
     prop_oneof![
-        6 => (1u8..8).prop_map(|mask| FsAct::Build { files: (0u8..3).filter(|b| mask & (1 << b) != 0).collect() }),
+        6 => (1u8..8, prop_oneof![8 => Just(React::Noop), 2 => Just(React::Panic), 1 => Just(React::Suspend)])
+            .prop_map(|(mask, react)| FsAct::Build { files: (0u8..3).filter(|b| mask & (1 << b) != 0).collect(), react }),
         2 => any::<u16>().prop_map(FsAct::Drop),
         2 => any::<u16>().prop_map(FsAct::Drain),
     ]
@@ -1884,11 +2096,12 @@ fn check(tier: Tier, seed: u64) -> i32 {
     ctx.random("manual-burst", tier.pick(30_000, 450_000), &|| strategy_burst(), &run);
     ctx.random("fs-hook", tier.pick(40_000, 600_000), &|| strategy_fs(), &run_fs);
     ctx.finish(
-        "manual: 1-4 hand-polled trigger tasks (scripts of trigger().await / trigger_noop() / progress bumps / bursts of n identical async or synchronous triggers in a row, over 4 values x 2 trigger types; burst length 1-8 mostly, then 9-99 and a heavy tail 100, 255-257, 1000, 1023, 1024, 1025, ..2100, 3000, 4097, 10 000) interleaved by a generated schedule with test actions (build barrier with Noop/Suspend/Panic reaction and a value-set condition, poll wait(), cancel a pending wait(), drop a reported handle, drop a barrier with or without draining it, collect all reports of a barrier, cancel a task); a registry-list model (earliest-created live matching barrier receives the trigger, only it) is stepped in lock-step and compared after every action (task progress, panics, reported values and order, wake-ups), and an epilogue collects ALL remaining reports of every barrier (count and order against the model queues), drops everything and requires every remaining task to finish in one poll. Non-trivial = at least one trigger matched >= 2 live barriers at once, or a Suspend handle was dropped after the suspended task had been polled again at least once while held. manual-burst: same interpreter and oracle, generator concentrated on piles of uncollected reports (scripts mostly bursts, 1-3 barriers built up front, mostly Noop with wide sets, short schedules that collect rarely); the class labels give the largest number of uncollected reports on one barrier and the async / trigger_noop deliveries made onto >= 1024 uncollected reports. fs-hook: Sim with corruption_probability 1.0/0.5/0.25, 1-2 hosts reading 1-3 files through six std/tokio shim read paths (single reads and read loops of 1-10 000 identical reads), Barrier<FsCorruption> built/drained/dropped between steps; non-trivial = an event was delivered and (another event had no live matching barrier or two live barriers overlapped). Distinct by scenario hash.",
+        "manual: 1-4 hand-polled trigger tasks (scripts of trigger().await / trigger_noop() / progress bumps / bursts of n identical async or synchronous triggers in a row, over 4 values x 2 trigger types; burst length 1-8 mostly, then 9-99 and a heavy tail 100, 255-257, 1000, 1023, 1024, 1025, ..2100, 3000, 4097, 10 000) interleaved by a generated schedule with test actions (build barrier with Noop/Suspend/Panic reaction and a value-set condition, poll wait(), cancel a pending wait(), drop a reported handle, drop a barrier with or without draining it, collect all reports of a barrier, cancel a task); a registry-list model (earliest-created live matching barrier receives the trigger, only it) is stepped in lock-step and compared after every action (task progress, panics, reported values and order, wake-ups), and an epilogue collects ALL remaining reports of every barrier (count and order against the model queues), drops everything and requires every remaining task to finish in one poll. Non-trivial = at least one trigger matched >= 2 live barriers at once, or a Suspend handle was dropped after the suspended task had been polled again at least once while held. manual-burst: same interpreter and oracle, generator concentrated on piles of uncollected reports (scripts mostly bursts, 1-3 barriers built up front, mostly Noop with wide sets, short schedules that collect rarely); the class labels give the largest number of uncollected reports on one barrier and the async / trigger_noop deliveries made onto >= 1024 uncollected reports. fs-hook: Sim with corruption_probability 1.0/0.5/0.25, 1-2 hosts reading 1-3 files through six std/tokio shim read paths (single reads and read loops of 1-10 000 identical reads), Barrier<FsCorruption> built (reaction Noop 8 : Panic 2 : Suspend 1)/drained/dropped between steps; every read call runs under catch_unwind in the host software: a read that panics must have a Panic (message 'Injected panic from barrier') or Suspend (documented trigger_noop panic) barrier as its earliest live matching barrier, a read that comes back corrupted must not, and nothing is reported for a panicked read; a host stops after its first panicked read; non-trivial = an event was delivered and (another event had no live matching barrier or two live barriers overlapped). Distinct by scenario hash.",
         &[
             "panic messages checked are the ones pinned by crates/turmoil/tests/barriers.rs (should_panic expected strings)",
             "a task suspended on a trigger whose barrier is dropped before wait() reported it is outside the property (no handle was ever reported): the model follows whatever the implementation does with that task",
-            "trigger_noop against a Suspend barrier is generated only as an expected-panic step of a task (documented panic), never from the fs hook",
+            "trigger_noop against a Suspend barrier is generated as an expected-panic step of a task (documented panic) and, in fs-hook, as a Suspend barrier matching FsCorruption (the hook's trigger is trigger_noop, whose rustdoc says it panics on a Suspend barrier): the corrupted read must panic with that message",
+            "fs-hook with a Panic/Suspend barrier in the scenario: the injected panic unwinds out of the fs shim while it holds the host's Fs lock (poisoned afterwards) and a shim File dropped by that unwind would panic again and abort the process, so these scenarios use only the handle-based read paths (whole-file helpers fs::read are mapped to read_at), keep the handle out of the unwind (ManuallyDrop) and the host makes no further fs call after its first panicked read",
             "fs-hook: reads detect corruption themselves by comparing with the known file contents; exactly one differing byte = one corruption event at offset read_offset+index, len 1",
             "fs-hook: only the turmoil-fs shim read paths are exercised; io_uring ring reads do not fire the hook (TODO in turmoil-io-uring/src/sim.rs) and make no trigger call, so they are outside this property",
             "no bound on the number of uncollected reports per barrier is documented (barriers rustdoc: Noop = 'source code continues immediately after trigger', trigger_noop = 'notify barriers about events without suspending execution'; property: 'a Noop barrier never blocks it', 'reported exactly once'), so the model queues are unbounded; bursts are capped at 12 000 triggers and 40 000 expanded steps per task",
